@@ -21,6 +21,8 @@ import (
 //                 replaced by (eval (macroexpand '(call))) must give the same transcript,
 //                 (c) macroexpand-1 iterated to a fixpoint equals macroexpand
 //                 (idx%8 == 5: expansions that embed live objects, four evaluation routes - c07_live.go)
+//                 (idx%32 == 9: the two routes at the expansion bound - c07_depth.go)
+//                 (idx%16 == 4: overlapping lifetimes of two expansions of one macro - c07_overlap.go)
 //   idx%4 == 2    quasiquote templates: real vs template model (quote marks compared)
 //   idx%4 == 3    gensym: distinctness among themselves and from the program's symbols
 //                 (idx%16 == 15: over long histories, the counter fast-forwarded - c07_long.go)
@@ -29,14 +31,16 @@ func init() {
 	fw.Register(&fw.Prop{
 		ID:    "C07",
 		Level: "exploration",
-		Rule: "macro definitions generated from quasiquote templates (unquote / unquote-splicing at first, middle, last position, adjacent and empty splices, under quote marks, in nested lists; macros expanding to macro calls, to definitions, using gensym; defmacro and macrolet) with call sites whose argument forms carry effect probes; macros whose templates unquote a live mutable object computed at expansion time (global sorted-map, vector, runtime list, deftype instance over a map or vector, closure over a counter or a map, components of nested structures of those, an object private to the macro) into a form that mutates it (assoc!, dissoc!, append!, stable-sort in place, a call of the closure; the object occurring once, twice, spliced, let-bound, passed on as argument of another macro), called directly, through eval of macroexpand, through eval of the macroexpand-1 fixpoint and nested in another macro's expansion, each route in a fresh runtime, the state of every object (read through its global after every call) and equal?-readings between global and embedded object compared across the routes and with the reference model where it models the constructs; quasiquote templates of depth <= 6; gensym runs of up to 2000 symbols per runtime incl. through trace/get-default/deftype/curry-function in programs whose text contains gen-prefixed numbered symbols; gensym over long histories: one runtime, symbols taken through (gensym), user macros, builtin macro expansions, Runtime.GenSym and LEnv.GenSym, the counter fast-forwarded (hook VerifAdvanceGenSym) 1-4 times between the takes and inside evaluations by amounts around 10^1..10^19, 2^31, 2^32, 2^53, 2^63 and up to 2^64-2^32 in total, all symbols of the runtime pairwise distinct (Go strings and equal?) and absent from the texts loaded, macro-hygiene programs whose expansions are made before and after fast-forwards agreeing with the reference model. " +
+		Rule: "macro definitions generated from quasiquote templates (unquote / unquote-splicing at first, middle, last position, adjacent and empty splices, under quote marks, in nested lists; macros expanding to macro calls, to definitions, using gensym; defmacro and macrolet) with call sites whose argument forms carry effect probes; macros whose templates unquote a live mutable object computed at expansion time (global sorted-map, vector, runtime list, deftype instance over a map or vector, closure over a counter or a map, components of nested structures of those, an object private to the macro) into a form that mutates it (assoc!, dissoc!, append!, stable-sort in place, a call of the closure; the object occurring once, twice, spliced, let-bound, passed on as argument of another macro), called directly, through eval of macroexpand, through eval of the macroexpand-1 fixpoint and nested in another macro's expansion, each route in a fresh runtime, the state of every object (read through its global after every call) and equal?-readings between global and embedded object compared across the routes and with the reference model where it models the constructs; quasiquote templates of depth <= 6; gensym runs of up to 2000 symbols per runtime incl. through trace/get-default/deftype/curry-function in programs whose text contains gen-prefixed numbered symbols; gensym over long histories: one runtime, symbols taken through (gensym), user macros, builtin macro expansions, Runtime.GenSym and LEnv.GenSym, the counter fast-forwarded (hook VerifAdvanceGenSym) 1-4 times between the takes and inside evaluations by amounts around 10^1..10^19, 2^31, 2^32, 2^53, 2^63 and up to 2^64-2^32 in total, all symbols of the runtime pairwise distinct (Go strings and equal?) and absent from the texts loaded, macro-hygiene programs whose expansions are made before and after fast-forwards agreeing with the reference model; overlapping lifetimes of two expansions of one defmacro / macrolet macro (every 16th case): macros whose body - or a helper function - expands or evaluates a form headed by the same macro (macroexpand, macroexpand-1, eval; the form built by cons or by quasiquote) while its own expansion is being computed and reads its parameters afterwards (and-like / list / progn / + macros expanding their own tail, a macro summing at expansion time, a code walker expanding an argument form that is a call of itself), macros whose body makes a closure over its parameters that outlives the expansion (embedded and called in the expansion, kept in a global list and called at the end, put into a function the expansion defines), 2-5 calls of 1-3 such macros with calls of the same macro among the arguments, run directly, as (eval (macroexpand '(call))) and with ALL expansions taken first (macroexpand or macroexpand-1, program order or reversed) and evaluated afterwards, each route in a fresh runtime; parameters snapshotted before the re-entry must equal the parameters after it, run-time events and outcome must be those of the direct program, and the reference model (macroexpand modelled, every macro call in a frame of its own) judges the direct and the held program. " +
 			"distinct_nontrivial counts distinct (template shapes, call shape, outcome) and (qq template skeleton) signatures",
 		Assumptions: []string{
 			"the template model is refint's quasiquote (everything literal, unquote inserts a value, unquote-splicing splices a list, written quote marks are re-applied)",
 			"gensym names in the model differ from the real ones; programs are generated so that a gensym never leaks into a compared value",
+			"overlapping expansions: the model's macroexpand / macroexpand-1 (refint.InstallMacroexpand) follow the docstrings for macros defined in lisp (head resolved where macroexpand is called, one fresh frame per expansion, the expansion returned as quoted data) and decline macros the model implements directly",
 		},
 		Cases:       func(tier string) int { return pick(tier, 16000, 500000) },
 		Run:         c07Run,
+		Driver:      c07Driver,
 		MinDistinct: func(tier string) int { return pick(tier, 300, 900) },
 	})
 }
@@ -240,6 +244,7 @@ func (g *c07Gen) call(m c07Macro) *sx.N {
 }
 
 func c07Run(w *fw.W, idx int) {
+	w.Count("c07_cases", 1)
 	switch idx % 4 {
 	case 2:
 		c07Quasi(w, idx)
@@ -252,6 +257,8 @@ func c07Run(w *fw.W, idx int) {
 	default:
 		if idx%32 == 9 {
 			c07Depth(w, idx) // c07_depth.go
+		} else if idx%16 == 4 {
+			c07Overlap(w, idx) // c07_overlap.go
 		} else if idx%8 == 5 {
 			c07Live(w, idx) // c07_live.go
 		} else {
@@ -393,7 +400,16 @@ func c07Macros(w *fw.W, idx int) {
 // trace and outcome with those of the real run (rr, t1).  declined: the model does not
 // predict this program (fuel / a construct it is unsure about).
 func c07AgainstModel(forms []*sx.N, rr *rt.R, t1 rt.Transcript) (bad string, declined bool, in *refint.Interp) {
+	return c07AgainstModelWith(forms, rr, t1, nil)
+}
+
+// c07AgainstModelWith: setup (optional) prepares the model before the forms are loaded;
+// when the model declines, bad carries its reason.
+func c07AgainstModelWith(forms []*sx.N, rr *rt.R, t1 rt.Transcript, setup func(*refint.Interp)) (bad string, declined bool, in *refint.Interp) {
 	in = refint.New()
+	if setup != nil {
+		setup(in)
+	}
 	_, merr := func() (mv *refint.V, me *refint.Err) {
 		defer func() {
 			if rec := recover(); rec != nil {
@@ -403,7 +419,7 @@ func c07AgainstModel(forms []*sx.N, rr *rt.R, t1 rt.Transcript) (bad string, dec
 		return in.LoadForms(forms)
 	}()
 	if merr != nil && (merr.Fuel || merr.Unsure) {
-		return "", true, in
+		return merr.Cond, true, in
 	}
 	if len(rr.Trace) != len(in.Trace) {
 		bad = fmt.Sprintf("effect trace length %d vs model %d", len(rr.Trace), len(in.Trace))
